@@ -49,7 +49,9 @@ func init() {
 		},
 		Cases:       cases,
 		Run:         run,
-		MinCounters: []string{"licence_direct_accepted", "licence_sale_accepted", "activation_accepted", "activation_again_rejected", "activation_impostor_rejected", "sale_rejected_nothing_changed", "vesting_probes", "escrow_checks"},
+		MinCounters: []string{"licence_direct_accepted", "licence_sale_accepted", "activation_accepted", "activation_again_rejected", "activation_impostor_rejected", "sale_rejected_nothing_changed", "vesting_probes", "escrow_checks",
+			"sale_contract_only_obstacle_empty_unconfigured_chain", "sale_contract_only_obstacle_empty_configured_chain", "sale_contract_only_obstacle_zero-address_unconfigured_chain",
+			"sale_contract_only_obstacle_unknown_chain_reference", "authz_sweep_controls_accepted"},
 		Workers:     12,
 		TimeoutS:    600,
 	})
